@@ -73,3 +73,53 @@ def ob_trait_impl_diag_order(r, tier, seed, nmethods):
 def obligations():
     return [Ob('O13.3-trait-impl-diagnostics-3', 'diagnostics of define_trait_impl independent of hash iteration order (3 missing methods)', ob_trait_impl_diag_order, ('quick', 'thorough'), 3, dict(nmethods=3)),
             Ob('O13.3-trait-impl-diagnostics-4', 'same, 4 missing methods', ob_trait_impl_diag_order, ('thorough',), 10, dict(nmethods=4))]
+
+# ----------------------------------------------------------------------------- O16.7 orphan rule: an impl is accepted only if the trait or the (nominal) type is local
+def ob_orphan_rule(r, tier, seed):
+    W = e2.fresh_world(CRATES); tt = W.tt
+    TY = tt.find_adt(['tast', 'Ty'], 'compiler'); DI = tt.find_adt(['diagnostics', 'Diagnostics'], 'diagnostics'); DG = tt.find_adt(['diagnostics', 'Diagnostic'], 'diagnostics')
+    PTE = tt.find_adt(['env', 'PackageTypeEnv'], 'compiler'); GTE = tt.find_adt(['env', 'GlobalTypeEnv'], 'compiler'); TE = tt.find_adt(['env', 'TraitEnv'], 'compiler'); TD = tt.find_adt(['env', 'TraitDef'], 'compiler')
+    IB = [a for a in tt.by_name['ImplBlock'] if a.crate == 'compiler' and 'hir' in '::'.join(a.path)][0]
+    traits = ['Show', 'Lib::Show', 'Other::Show']; pkgs = ['Main', 'Lib']
+    types = {'int32': lambda: Agg(TY.key, TY.vindex('TInt32'), []), 'tuple': lambda: Agg(TY.key, TY.vindex('TTuple'), [PyVec([Agg(TY.key, TY.vindex('TInt32'), [])])]),
+             'Ref[P]': lambda: Agg(TY.key, TY.vindex('TRef'), [ms.mkbox(Agg(TY.key, TY.vindex('TStruct'), [mkstr('P')]))]), 'Vec[int32]': lambda: Agg(TY.key, TY.vindex('TVec'), [ms.mkbox(Agg(TY.key, TY.vindex('TInt32'), []))]),
+             'P': lambda: Agg(TY.key, TY.vindex('TStruct'), [mkstr('P')]), 'Lib::P': lambda: Agg(TY.key, TY.vindex('TStruct'), [mkstr('Lib::P')]), 'Other::P': lambda: Agg(TY.key, TY.vindex('TStruct'), [mkstr('Other::P')])}
+    r.bounds = 'current package in %s; impl of trait %s for a type in %s (empty impl block, trait without methods)' % (pkgs, traits, sorted(types))
+    r.assumptions = ['Ty::from_hir, validate_ty, resolve_trait_name replaced by stubs returning the chosen type / nothing / the chosen trait name; is_local_name and is_local_nominal_type run for real',
+                     'oracle (orphan rule): the impl is rejected with an orphan-rule diagnostic iff the trait is not local AND the type is not a local nominal type; builtin and structural types (int32, tuples, Ref, Vec) are never local']
+    cur = {}
+    W.stubs['validate_ty'] = lambda ex, a: UNIT
+    W.stubs['resolve_trait_name'] = lambda ex, a: some(Agg('tuple', 0, [mkstr(cur['trait']), Ref(cur, 'genv')]))
+    for nm in list(W.methods.get('from_hir', [])):
+        if nm[2] is not None and nm[2].self_key == 'Ty': W.stubs[nm[1]] = lambda ex, a: types[cur['type']]()
+    for nm in list(W.methods.get('to_ident_name', [])): W.stubs[nm[1]] = lambda ex, a: mkstr(cur['trait'])
+    def field(adt, v, name): return v.fields[[f[0] for f in adt.variants[0].fields].index(name)]
+    def entry(ex):
+        pk = ex.choose([(True, p_) for p_ in pkgs]); cur['trait'] = ex.choose([(True, t) for t in traits]); cur['type'] = ex.choose([(True, t) for t in sorted(types)])
+        genv = ex.call('env::GlobalTypeEnv::new_empty', [])
+        defs = field(TE, field(GTE, genv, 'trait_env'), 'trait_defs')
+        defs.keys.append(mkstr(cur['trait'])); defs.vals.append(Agg(TD.key, 0, [PyMap('index')]))
+        cur['genv'] = genv
+        penv = Agg(PTE.key, 0, [{'package': mkstr(pk), 'current': genv, 'deps': PyMap('hash')}[f[0]] for f in PTE.variants[0].fields])
+        ib = Agg(IB.key, 0, [{'attrs': PyVec([]), 'generics': PyVec([]), 'trait_name': some(Opaque('ident')), 'for_type': Opaque('typeexpr'), 'methods': PyVec([])}[f[0]] for f in IB.variants[0].fields])
+        h = {0: penv, 1: Agg(DI.key, 0, [PyVec([])]), 2: ib, 3: Opaque('ident'), 4: Opaque('hir_table')}
+        ex.call('typer::toplevel::define_trait_impl', [Ref(h, 0), Ref(h, 1), Ref(h, 2), Ref(h, 3), Ref(h, 4)])
+        msgs = [ms.pystr(field(DG, d, 'message')) for d in h[1].fields[0].items]
+        return pk, cur['trait'], cur['type'], msgs
+    res = e2.explore(r, W, entry, [])
+    def local_name(pk, n): return (n.split('::')[0] == pk) if '::' in n else pk in ('Main', 'Builtin')
+    for p in res:
+        r.cases += 1
+        if p.kind != 'ok': raise Unsupported('define_trait_impl panicked: %s' % p.value)
+        pk, tr, ty, msgs = p.value
+        type_local = ty in ('P', 'Lib::P', 'Other::P') and local_name(pk, ty)
+        want_orphan = (not local_name(pk, tr)) and (not type_local)
+        got_orphan = any('orphan' in m for m in msgs)
+        r.nontrivial += 1
+        if want_orphan != got_orphan and not r.findings:
+            r.findings.append(Finding('orphan-impl-accepted' if want_orphan else 'local-impl-rejected', 'package %s: `impl %s for %s` is %s; the orphan rule says it must be %s' % (pk, tr, ty, 'rejected as orphan' if got_orphan else 'accepted', 'rejected' if want_orphan else 'accepted'), {'package': pk, 'trait': tr, 'type': ty}, True,
+                                      'diagnostics pushed by the real define_trait_impl MIR (with the real is_local_name / is_local_nominal_type): %s' % msgs[:2]))
+    r.samples = []
+
+def obligations_c16():
+    return [Ob('O16.7-orphan-rule', 'define_trait_impl rejects exactly the impls whose trait and type are both foreign', ob_orphan_rule, ('quick', 'thorough'), 3, {})]
